@@ -305,7 +305,7 @@ Definition declare (d : dom) (m : mstate) : mstate :=
   let (v, st) := new_var d (mst m) in mkms st (mpend m) (muser m ++ [v]) (mpanic m).
 
 (* Model::add / sub / mul on two variables: result bounds from the operands' CURRENT bounds *)
-Definition api_call (f : afn) (x y : nat) (m : mstate) : mstate :=
+Definition api_call_prefix (f : afn) (x y : nat) (m : mstate) : mstate :=
   let s := fst (mst m) in
   let dx := sget s x in let dy := sget s y in
   if dempty dx || dempty dy then mkms (mst m) (mpend m) (muser m) true
@@ -320,6 +320,21 @@ Definition api_call (f : afn) (x y : nat) (m : mstate) : mstate :=
       end in
     let (r, st) := new_var (drange lo hi) (mst m) in
     mkms (push (mk r) st) (mpend m) (muser m ++ [r]) (mpanic m).
+(* Model::add / sub / mul on two variables: result bounds from the operands' CURRENT bounds.
+   Since the repair "posting methods do not read the bounds of an empty domain" (Model::operand_bounds /
+   empty_result_var): an operand whose domain is empty (reversed bounds, empty value set, emptied by an
+   earlier x == c) has no bounds; the result variable gets the empty domain (self.int(1, 0)), the
+   propagator is posted, validation reports InvalidDomain.  Before the repair SparseSet::min()'s debug
+   assertion fired: api_call_prefix. *)
+Definition api_desc (f : afn) (x y r : nat) : pdesc :=
+  match f with FAdd => PAdd (VVar x) (VVar y) r | FSub => p_sub (VVar x) (VVar y) r | FMul => PMul (VVar x) (VVar y) r end.
+Definition api_call (f : afn) (x y : nat) (m : mstate) : mstate :=
+  let s := fst (mst m) in
+  let dx := sget s x in let dy := sget s y in
+  if dempty dx || dempty dy then
+    let (r, st) := new_var [] (mst m) in
+    mkms (push (api_desc f x y r) st) (mpend m) (muser m ++ [r]) (mpanic m)
+  else api_call_prefix f x y m.
 
 Definition exec (s : stmt) (m : mstate) : mstate :=
   match s with
